@@ -313,6 +313,22 @@ func e712Impl(req map[string]any) any {
 		return "err"
 	}
 	out := map[string]any{"digest": hx(h)}
+	// the public HashStruct entry point must agree with what EncodeTypedDataV4 hashed: digest = keccak(0x1901 ‖
+	// HashStruct(EIP712Domain, domain) ‖ HashStruct(primaryType, message)) (EncodeTypedDataV4 has filled in the
+	// default domain type / empty domain on td by now)
+	{
+		dh, derr := eip712.HashStruct(ctx, "EIP712Domain", td.Domain, td.Types)
+		pre := append([]byte{0x19, 0x01}, dh...)
+		var serr2 error
+		if td.PrimaryType != "EIP712Domain" {
+			var sh []byte
+			sh, serr2 = eip712.HashStruct(ctx, td.PrimaryType, td.Message, td.Types)
+			pre = append(pre, sh...)
+		}
+		if derr != nil || serr2 != nil || hx(keccak(pre)) != hx(h) {
+			out["hashStructAgrees"] = false
+		}
+	}
 	// signing: 65 byte R‖S‖V, V in {27,28}, verifies for the digest against the signer without re-hashing
 	var td2 eip712.TypedData
 	_ = json.Unmarshal([]byte(str(req, "text")), &td2)
@@ -343,6 +359,9 @@ func e712Judge(prop string) func(c *Ctx, req map[string]any, impl any, orc map[s
 		if m, isok := impl.(map[string]any); isok {
 			o := m["ok"].(map[string]any)
 			implDigest = ok(o["digest"])
+			if o["hashStructAgrees"] == false {
+				fs = append(fs, Finding{Kind: "violation", Region: "eip712.hashstruct-entrypoint", Detail: "HashStruct (public entry point) on the document's domain / message does not give the hashes EncodeTypedDataV4 used: the same member values are read differently through it"})
+			}
 			if o["sign"] != true {
 				fs = append(fs, Finding{Kind: "violation", Region: "eip712.sign", Detail: "signature is not 65-byte R‖S‖V with V∈{27,28} verifying for the digest against the signer"})
 			}
@@ -481,7 +500,8 @@ func referencedTypes(ts e712Types, primary string) e712Types {
 
 func init() {
 	register(&Suite{
-		Prop: "C04",
+		Prop:     "C04",
+		Parallel: true,
 		Gen: func(c *Ctx) {
 			r := c.R
 			n := 400
@@ -528,6 +548,24 @@ func init() {
 				base := map[string]any{"hasAbstract": true, "expect": "digest", "primaryType": primary, "domainVal": map[string]any{"st": domAbs}, "messageVal": msgAbs}
 				// spec-side types: the abstract graph (without unreferenced extras)
 				specTypes := typesPlain(allAbs)
+				// a member key spelled in another letter case is a different key: the member is absent and the field is
+				// an extra one (judged against the model, which looks names up exactly)
+				if mo, isObj := msgC.(oobj); isObj && len(mo) > 0 && i%3 == 0 {
+					alt := append(oobj{}, mo...)
+					k := r.Intn(len(alt))
+					up := strings.ToUpper(alt[k].K)
+					if up == alt[k].K {
+						up = strings.ToLower(alt[k].K)
+					}
+					if up != alt[k].K {
+						alt[k] = okv{up, alt[k].V}
+						if r.Bool() {
+							alt = append(alt, okv{strings.Title(mo[k].K), mo[k].V})
+						}
+						text := buildDoc(r, ts, primary, dts, haveDom, domCAny, shuffleObj(r, alt), false, false)
+						addE712Case(c, text, map[string]any{}, "doc.case-variant-key")
+					}
+				}
 				// three metamorphic renderings of the same document: plain, shuffled+extra types, extra message fields
 				for variant := 0; variant < 3; variant++ {
 					text := buildDoc(r, ts, primary, dts, haveDom, domCAny, msgC, variant == 1, variant == 2)
@@ -612,7 +650,8 @@ func init() {
 	})
 
 	register(&Suite{
-		Prop: "C14",
+		Prop:     "C14",
+		Parallel: true,
 		Gen: func(c *Ctx) {
 			r := c.R
 			// 1. integer members in each textual form, at the boundaries
@@ -663,6 +702,18 @@ func init() {
 						text := buildDoc(r, ts, "Msg", nil, false, "omit", oobj{{"v", f}}, false, false)
 						addE712Case(c, text, map[string]any{"expect": "reject"}, "nonintegral")
 					}
+				}
+			}
+			// 1b. things a float parser takes that are no integers at all: infinities, not-a-number, exponents beyond any
+			// width (as JSON numbers where JSON allows them, and as strings)
+			for _, tname := range []string{"uint256", "int64", "uint8"} {
+				ts := e712Types{"Msg": {{"v", tname}}}
+				for _, f := range []any{"Inf", "inf", "+Inf", "-inf", "Infinity", "NaN", "nan", json.Number("1e999999999"), json.Number("1E+700000000"), "1e999999999", json.Number("1e-400"),
+					json.Number("-1e999999999"), "0x", "0b", "1_000", "١٢٣", " 5", "5 ", "+5", "--5", "0x-5", "5e", "e5", ".5", "5."} {
+					text := buildDoc(r, ts, "Msg", nil, false, "omit", oobj{{"v", f}}, false, false)
+					addE712Case(c, text, map[string]any{}, "notanumber")
+					text2 := buildDoc(r, e712Types{"Msg": {{"v", tname + "[]"}}}, "Msg", nil, false, "omit", oobj{{"v", []any{json.Number("1"), f}}}, false, false)
+					addE712Case(c, text2, map[string]any{}, "notanumber.array")
 				}
 			}
 			// 2. structural mutations of valid documents
